@@ -207,7 +207,7 @@ static void runAsync(const std::string &flow, bool slow)
 
 struct BurstCtx { std::vector<std::atomic<int>> counts; BurstCtx(size_t n) : counts(n) { for (auto &c : counts) c = 0; } };
 
-static Json runBurst(long n, bool heap, bool slow)
+static Json runBurst(long n, bool heap, bool slow, int reinitTo = 0)
 {
   // events follow the parallel-loop contract: Call(1, n) ... ExecBegin/End(k) ... Return(cells)
   std::shared_ptr<BurstCtx> cx(new BurstCtx((size_t)n));
@@ -226,6 +226,9 @@ static Json runBurst(long n, bool heap, bool slow)
       if (ep == g_epoch.load()) g_fnDone++;
     });
   }
+  // "reinit": the tasking system is configured again while closures are still queued (what an application does when
+  // its thread count changes); every closure scheduled before must still run exactly once
+  if (reinitTo > 0) initTaskingSystem(reinitTo);
   idleUntilDone((int)n, 15000);
   long once = 0;
   for (auto &c : cx->counts) once += c.load() == 1 ? 1 : 0;
@@ -356,6 +359,10 @@ int main(int argc, char **argv)
     const std::string kind = j["kind"].str(), type = j["type"].str();
     if (kind == "burst") {
       runBurst(j["n"].num(), type == "vector", j["slow"].boolean());
+    } else if (kind == "reinit") {
+      const std::string fl = j["flow"].str();
+      runBurst(j["n"].num(), true, j["slow"].boolean(), fl == "fewer" ? std::max(2, threads - 1) : fl == "more" ? threads + 1 : threads);
+      initTaskingSystem(threads);
     } else if (kind == "nested") {
       runNested(j["n"].num(), j["slow"].boolean());
     } else if (kind == "atask") {
@@ -370,10 +377,10 @@ int main(int argc, char **argv)
       else if (type == "vector") dispatchAsync<std::vector<int>>(j);
       else dispatchAsync<Tracked>(j);
     }
-    if (kind != "burst" && kind != "nested") { Json e = Json::object(); e.set("ev", "End"); logJ(e); }
+    if (kind != "burst" && kind != "nested" && kind != "reinit") { Json e = Json::object(); e.set("ev", "End"); logJ(e); }
     Json r = Json::object();
     r.set("id", j["id"]);
-    r.set("events", collect(kind == "burst" || kind == "nested"));
+    r.set("events", collect(kind == "burst" || kind == "nested" || kind == "reinit"));
     of << r.dump() << "\n";
     of.flush();
   }
